@@ -113,6 +113,43 @@ Example c06_partition_nonvacuous :
    (([], [("alertname", "A")]), [ex_a2])].
 Proof. vm_compute. reflexivity. Qed.
 
+(* ---- instance level (Model/Instance.v): grouping composed with routing and the timed group machines. The
+   published alert is put, by the model's own decision, into exactly one group per route the tree selects, keyed by
+   the alert's values of that route's group_by; nothing else changes; and whatever a group's store holds at any
+   reachable state was published and routed there. ---- *)
+From AM Require Import Model.Instance Proofs.InstanceProofs.
+
+Theorem c06_instance_one_group_per_selected_route cfg ls p :
+  In p (match_route (ic_re cfg) ls (ic_route cfg)) -> is_Some (node_at (ic_route cfg) p) ->
+  (exists gl, (p, gl) ∈ targets cfg ls) /\
+  forall gl1 gl2, (p, gl1) ∈ targets cfg ls -> (p, gl2) ∈ targets cfg ls -> gl1 = gl2.
+Proof.
+  intros Hp Hn. split; [exact (targets_every_route cfg ls p Hp Hn)|]. intros gl1 gl2. exact (targets_one_per_route cfg ls p gl1 gl2).
+Qed.
+
+Theorem c06_instance_alert_joins_exactly_its_groups cfg s t ls st en up s' o :
+  istep cfg s t (IAlert ls st en up) = Some (s', o) ->
+  exists id, assoc (ic_ids cfg) ls = Some id /\ o = [] /\
+    forall k,
+      (k ∈ targets cfg ls ->
+         s_nflog (view cfg s' k) = s_nflog (view cfg s k) /\
+         s_group (view cfg s' k) =
+           Some (match s_group (view cfg s k) with
+                 | None => mkGr [mkA id st en up]
+                                (if st + ro_gw (opts_at cfg (fst k)) <? t then t else t + ro_gw (opts_at cfg (fst k))) None
+                 | Some g => mkGr (Group.store_set (gr_alerts g) (mkA id st en up)) (gr_deadline g) (gr_flight g)
+                 end)) /\
+      (k ∉ targets cfg ls ->
+         s_nflog (view cfg s' k) = s_nflog (view cfg s k) /\ s_group (view cfg s' k) = s_group (view cfg s k)).
+Proof. exact (alert_joins_exactly_its_groups cfg s t ls st en up s' o). Qed.
+
+Theorem c06_instance_stored_alert_was_published_and_routed cfg t0 h s outs k g b :
+  irun cfg (iinit t0) h = Some (s, outs) -> s_group (view cfg s k) = Some g -> In b (gr_alerts g) ->
+  exists t ls, In (t, IAlert ls (a_starts b) (a_ends b) (a_upd b)) h /\ assoc (ic_ids cfg) ls = Some (a_id b) /\ k ∈ targets cfg ls.
+Proof. exact (stored_alert_was_published_and_routed cfg t0 h s outs k g b). Qed.
+
 Print Assumptions c06_groups_are_the_partition.
 Print Assumptions c06_never_split_under_any_schedule.
 Print Assumptions c06_insert_never_lost_under_any_schedule.
+Print Assumptions c06_instance_alert_joins_exactly_its_groups.
+Print Assumptions c06_instance_stored_alert_was_published_and_routed.
